@@ -353,6 +353,11 @@ func (x *Exec) bindResults(fn *ssa.Function, res []Value, vars map[string]TV) {
 		if i == 0 {
 			vars["result"] = tv
 		}
+		if i == rs.Len()-1 && rs.At(i).Name() == "" && rs.At(i).Type().String() == "error" {
+			if _, has := vars["err"]; !has {
+				vars["err"] = tv
+			}
+		}
 	}
 }
 
@@ -392,19 +397,36 @@ func (x *Exec) invoke(fr *Frame, st *State, site ssa.Instruction, c *ssa.CallCom
 	x.oblige(fr, st, "nil", "iface:"+ikey, "method call on nil interface value: "+txt, pos, Neq(iv.Tag, IntLit(0)), nil)
 	full := append([]Value{iv}, args...)
 	x.bumpCounters(fr, st, ikey, full, append([]types.Type{itype}, sigTypes(c.Signature(), false)...), pos)
-	// interface-level model or contract (open world)
-	if m, ok := models[ikey]; ok {
-		if r, ok := m(x, fr, st, full, pos, rt); ok {
-			return r
+	closed := x.eng.closedWorld(itype)
+	external := func(s2 *State) Value {
+		// interface-level model or contract (open world)
+		if m, ok := models[ikey]; ok {
+			if r, ok := m(x, fr, s2, full, pos, rt); ok {
+				return r
+			}
 		}
-	}
-	if ct := x.eng.contracts.Funcs[ikey]; ct != nil {
-		return pack(x.applyIfaceContract(fr, st, c, ct, full, pos), rt)
-	}
-	if !x.eng.closedWorld(itype) {
-		return x.havocUnknown(fr, st, c, full, rt, pos, "open-world interface call "+ikey)
+		if ct := x.eng.contracts.Funcs[ikey]; ct != nil {
+			return pack(x.applyIfaceContract(fr, s2, c, ct, full, pos), rt)
+		}
+		return x.havocUnknown(fr, s2, c, full, rt, pos, "open-world interface call "+ikey)
 	}
 	impls := x.eng.implementers(itype, mname)
+	if !closed {
+		// keep only implementers that can matter: those whose method writes package state or has a contract
+		var keep []implementer
+		for _, im := range impls {
+			if im.fn.Pkg != nil && x.eng.isHome(im.fn.Pkg.Pkg) {
+				keep = append(keep, im)
+			}
+		}
+		impls = keep
+		if len(impls) == 0 || len(impls) > 10 {
+			if len(impls) > 10 {
+				x.vc.note("open-world call %s: %d package implementers not case-split", ikey, len(impls))
+			}
+			return external(st)
+		}
+	}
 	if len(impls) == 0 {
 		return x.havocUnknown(fr, st, c, full, rt, pos, "no implementers of "+ikey)
 	}
@@ -424,8 +446,17 @@ func (x *Exec) invoke(fr *Frame, st *State, site ssa.Instruction, c *ssa.CallCom
 		vals = append(vals, r)
 		conds = append(conds, s2.pc)
 	}
-	// closed world: the dynamic type is one of the implementers
-	x.assume(st, Or(known...))
+	if closed {
+		// closed world: the dynamic type is one of the implementers
+		x.assume(st, Or(known...))
+	} else {
+		s2 := st.clone()
+		s2.pc = x.vc.Name(And(st.pc, Not(Or(known...))), "ext")
+		r := external(s2)
+		states = append(states, edge{nil, TTrue, s2})
+		vals = append(vals, r)
+		conds = append(conds, s2.pc)
+	}
 	m := x.mergeStates(states)
 	pc := st.pc
 	*st = *m
